@@ -182,6 +182,7 @@ static void yield_to_sched (void) { struct fiber *f = &fibers[cur]; swapcontext 
 
 /* sem count lives in the first word of the nsync_semaphore */
 static uint32_t *sem_count (nsync_semaphore *s) { return ((uint32_t *) s); }
+int vf_sem_value (nsync_semaphore *s) { return ((int) *(volatile uint32_t *) s); } /* both builds keep the count in the first word */
 static const char *sem_name (nsync_semaphore *s);
 
 static int runnable (struct fiber *f) {
